@@ -26,6 +26,9 @@ CONFIGS = [
                       ("O", (0.41, 0.07, 0.77), "Uani", (0.021, 0.011, 0.017, -0.002, 0.006, 0.001), 1.0)]),
     ("2 atoms Uiso occ .5", [("S", (0.31, 0.62, 0.13), "Uiso", 0.02, 0.5), ("O", (0.41, 0.07, 0.77), "Uiso", 0.008, 1.0)]),
     ("1 atom Uani", [("CU", (0.0721, 0.4113, 0.2907), "Uani", (0.013, 0.009, 0.022, 0.004, 0.002, -0.003), 1.0)]),
+    # tensors a shortcut could mistake for "symmetric enough": exactly diagonal with unequal entries, and diagonal to 1e-9
+    ("1 atom Uani diagonal", [("FE", (0.1234, 0.2345, 0.3456), "Uani", (0.010, 0.021, 0.033, 0.0, 0.0, 0.0), 1.0)]),
+    ("1 atom Uani nearly diagonal", [("O", (0.41, 0.07, 0.77), "Uani", (0.012, 0.027, 0.019, 1e-9, -1e-9, 1e-9), 0.9)]),
 ]
 
 
@@ -48,13 +51,56 @@ def cases(tier, seed):
         nm = names[(no, cc)]
         for ci in range(len(CONFIGS)):
             cs.append({"no": no, "cc": cc, "name": nm[ci % len(nm)], "config": ci, "tier": tier})
+    cs.append({"kind": "history", "tier": tier})
     return cs
+
+
+HIST_CTX = [("p4", [5.1, 5.1, 7.7, 90., 90., 90.]), ("p222", [5.1, 5.1, 7.7, 90., 90., 90.]), ("p3", [5.1, 5.1, 7.7, 90., 90., 120.]), ("p-1", [5.1, 6.3, 7.7, 82., 97., 104.]),
+            ("p4", [6.0, 6.0, 9.1, 90., 90., 90.]), ("p213", [5.1, 5.1, 5.1, 90., 90., 90.])]
+
+
+def check_history(r):
+    """the SAME atom_entry objects are evaluated in one (group, cell) context and then in another: every ordered pair of contexts,
+    each pair on fresh atom objects (anything the library hangs on the atoms starts empty), covariance checked in both"""
+    from xfab import sg, structure
+
+    spec = CONFIGS[1][1]
+    hk = [(1, 0, 0), (0, 1, 1), (1, 2, 1), (2, -1, 1), (0, 0, 2)]
+    for i, (n1, c1) in enumerate(HIST_CTX):
+        for j, (n2, c2) in enumerate(HIST_CTX):
+            atoms = [structure.atom_entry(label="a%d" % k, atomtype=el, pos=list(pos), adp_type=adpt, adp=list(adp), occ=occ, symmulti=None)
+                     for k, (el, pos, adpt, adp, occ) in enumerate(spec)]
+            for step, (name, cell) in enumerate(((n1, c1), (n2, c2), (n1, c1))):
+                g = sg.sg(sgname=name)
+                ops = O.exact_ops(g)
+                for a in atoms:
+                    a.symmulti = g.nsymop
+                scale = sum(occ * O.Z[el] for el, _, _, _, occ in spec) * g.nsymop
+                loose = not O.dyadic(ops)
+                for h in hk:
+                    Fh = complex(*structure.StructureFactor(h, cell, name, atoms))
+                    for k2, ((R, t), tf) in enumerate(zip(ops, g.trans)):
+                        hR = O.row_times(h, R)
+                        FR = complex(*structure.StructureFactor(hR, cell, name, atoms))
+                        dev = abs(FR - Fh * np.exp(-2j * math.pi * float(np.dot(h, tf))))
+                        tol = scale * (1e-9 + (2 * math.pi * sum(abs(x) for x in h) * 2e-6 if loose else 0.0))
+                        r.evals += 1
+                        if not dev <= tol:
+                            r.violation("history:%s%s>%s%s:step%d:h=%s:op%d" % (n1, c1[:3], n2, c2[:3], step, h, k2),
+                                        "F(hR) = F(h) exp(-2 pi i h.t) also when the same atom objects were used before with another group / cell", None,
+                                        [FR.real, FR.imag], tol, dev)
+                r.transitions += 1
+            r.nontrivial.add("history:%d>%d" % (i, j))
+    r.states = len(HIST_CTX)
 
 
 def check_case(case):
     from xfab import sg, structure
 
     r = CaseResult()
+    if case.get("kind") == "history":
+        check_history(r)
+        return r
     name = case["name"]
     g = sg.sg(sgname=name)
     ops = O.exact_ops(g)
@@ -102,4 +148,4 @@ def alphabet(tier):
 
 
 def samples(cases):
-    return [cases[0], cases[len(cases) // 2], cases[-1], {"config0": CONFIGS[0], "config1": CONFIGS[1]}]
+    return [cases[0], cases[len(cases) // 2], cases[-2], {"config0": CONFIGS[0], "config1": CONFIGS[1]}]
